@@ -651,10 +651,29 @@ def judge_case(d, seed=0):
                 bad.append(f"C06 zero: recalibrated forecast {rc} has miscalibration {m4}")
         elif o4[0] != "nonfinite":
             bad.append(f"C06 zero: decompose raised {o4[0]} on the recalibrated forecast")
+    # Ill-conditioned repair (DESIGN.md 5.4): when min(y) is not admissible the code merges "the two lowest blocks"
+    # of the isotonic fit.  If the fit has blocks whose values are equal in exact arithmetic but differ in the
+    # last bits (scipy's expectile root finder), which blocks are "the two lowest" is decided at rounding level
+    # and the result jumps; the row-order / replication relations are not judged on such inputs.
+    def fit_near_tied():
+        if ymin_ok or functional not in ("mean", "expectile", "quantile"):
+            return False
+        try:
+            from model_diagnostics._utils.isotonic import IsotonicRegression as _IR
+            for c in cols:
+                fv = _IR(functional=functional, level=level if functional != "mean" else 0.5).fit(
+                    np.asarray(c, dtype=float), np.asarray(y, dtype=float), sample_weight=None if w is None else np.asarray(w, dtype=float)).predict(np.asarray(c, dtype=float))
+                sv = sorted(set(float(v) for v in np.asarray(fv).reshape(-1)))
+                if any(0 < b - a <= 1e-9 * max(1.0, abs(a), abs(b)) for a, b in zip(sv, sv[1:])):
+                    return True
+        except Exception:  # noqa: BLE001
+            return False
+        return False
+    ill = fit_near_tied()
     # --- C07 permutation
     perm = list(range(n))
     rng.shuffle(perm)
-    o5 = call(permuted(d, perm))
+    o5 = call(permuted(d, perm)) if not ill else ("nonfinite", "skipped: numerically tied blocks on the repair path")
     if o5[0] != "rows":
         if o5[0] != "nonfinite":
             bad.append(f"C07 permutation {perm}: decompose raised {o5[0]} ({o5[1]})")
@@ -664,7 +683,7 @@ def judge_case(d, seed=0):
                 bad.append(f"C07 permutation {perm}: {ra} became {rb}")
                 break
     # --- C07 replication (mean and expectile scores)
-    if functional in ("mean", "expectile") and w is not None and all(float(v).is_integer() and 1 <= v <= 6 for v in w):
+    if not ill and functional in ("mean", "expectile") and w is not None and all(float(v).is_integer() and 1 <= v <= 6 for v in w):
         reps = [int(v) for v in w]
         yr = [v for v, k in zip(y, reps) for _ in range(k)]
         cr = [[v for v, k in zip(c, reps) for _ in range(k)] for c in cols]
